@@ -4,7 +4,10 @@ use crate::track::TrackStatus;
 use crate::track::{ObservationAttributes, ObservationMetric, Track, TrackAttributes};
 use crate::trackers::epoch_db::EpochDb;
 use crate::trackers::sort::AutoWaste;
+#[cfg(not(similari_verif))]
 use std::sync::{RwLockReadGuard, RwLockWriteGuard};
+#[cfg(similari_verif)]
+use crate::verif::sync::{RwLockReadGuard, RwLockWriteGuard};
 
 pub trait TrackerAPI<TA, M, OA, E, N>
 where
